@@ -20,14 +20,30 @@ ASSUMPTIONS = [
     "prioritised variant is only sampled when the documented enabling rule guarantees an admissible start among the certainly retained rows",
 ]
 TIERS = {"quick": {"runs": 1600}, "thorough": {"runs": 60000}}
-REQUIRED = ["start_enumerations", "windows_checked", "first_wrap", "multi_lap", "one_step_episode", "episode_shorter_than_horizon", "term+trunc", "trunc_right_after_wrap"]
+REQUIRED = ["training_windows_checked", "start_enumerations", "windows_checked", "first_wrap", "multi_lap", "one_step_episode", "episode_shorter_than_horizon", "term+trunc", "trunc_right_after_wrap"]
 REQUIRED_QUICK = REQUIRED
-SHRINK_LISTS = [["ops"]]
+SHRINK_LISTS = [["ops"], ["env", "script"]]
+CHUNK = 300
 SHRINK_INTS = [(["n_tasks"], 0), (["obs_dim"], 0), (["act_dim"], 0)]
 CLAUSES = ["window", "trunc", "written", "reduced", "task"]
 
 
 def make_plan(rng, tier, index):
+    if index % 100 == 99:
+        # inside training: train_mrq with the buffer it creates itself; every sampled window is checked against the env log
+        from rlsim import trainplan
+        plan = trainplan.base_plan(rng, PROPERTY, ["C04.train"], "mrq", T=rng.choice([24, 30]))
+        plan["kind"] = "train"
+        plan["default_buffer"] = True
+        plan["logger"] = False
+        plan["env"]["script"] = trainplan.make_script(rng, 40, style=rng.choice(["short", "mixed"]))
+        for e in plan["env"]["script"]:
+            e["end"] = rng.choice(["term", "trunc", "trunc"])
+        plan["env"]["script"].insert(0, {"len": rng.choice([5, 6, 7]), "end": "term"})
+        c = plan["cfg"]
+        c["learning_starts"] = rng.choice([8, 10])
+        c["buffer_size"] = rng.choice([16, 24, 1000])
+        return plan
     cls = rng.choice(["SubtrajectoryReplayBuffer", "SubtrajectoryReplayBuffer", "SubtrajectoryReplayBufferPER"])
     n_tasks = rng.choice([0, 0, 0, 0, 1, 2])
     H = rng.choice([1, 1, 2, 2, 3, 4])
@@ -51,4 +67,7 @@ def normalise(plan):
 
 
 def execute(plan):
+    if plan.get("kind") == "train":
+        from rlsim import trainsim
+        return trainsim.execute(plan)
     return buffersim.execute(plan)
